@@ -350,6 +350,7 @@ func RunC19(c *engine.Ctx) {
 		rec(nil)
 	}
 	longLived(c)
+	concurrentStores(c)
 	sizeClasses(c)
 	collisions(c)
 	overwrites(c)
